@@ -340,6 +340,8 @@ class Engine:
                     raise Unsupported(f"deref of {v!r}")
                 variant = None
             elif k == "field":
+                if c.val is None:
+                    c.val = Adt("?", None)     # first write into an uninitialised aggregate
                 v = self.force(c, "adt")
                 if isinstance(v, Ref) and v.kind == "box":
                     # (_52.0: Unique<..>).0: NonNull<..> — keep the Ref through the wrapper fields
@@ -417,6 +419,9 @@ class Engine:
         m = re.fullmatch(r"'(.)'", s)
         if m:
             return Int(z3.BitVecVal(ord(m.group(1)), 32), 32, False)
+        mp = re.search(r"promoted\[(\d+)\]$", s)
+        if mp and fr is not None:
+            return self.eval_promoted(fr.fn, int(mp.group(1)))
         if "SizedTypeProperties>::ALIGN" in s:
             return Int(z3.BitVecVal(8, 64), 64, False)
         if "SizedTypeProperties>::SIZE" in s:
@@ -433,6 +438,24 @@ class Engine:
             return Int(z3.BitVecVal(2 ** 64 - 1, 64), 64, False)
         # enum unit variant constant, e.g. `const FallbackMode::Error` is printed as aggregate normally; function items:
         return FnItem(s)
+
+    def eval_promoted(self, fn, n):
+        name = f"{fn.raw_name}::promoted[{n}]"
+        cands = [f for f in self.fns if f.raw_name == name]
+        if len(cands) != 1:
+            raise Unsupported("promoted constant not found: " + name)
+        pf = cands[0]
+        mm = Machine()
+        frp = Frame(pf)
+        mm.frames.append(frp)
+        try:
+            while mm.outcome is None:
+                self.step(mm)
+        except _Stop:
+            pass
+        if not mm.outcome or mm.outcome[0] != "return":
+            raise Unsupported(f"promoted constant did not evaluate: {name}: {mm.outcome}")
+        return mm.outcome[1]
 
     def rvalue(self, m, fr, s, dest_ty=None):
         s = s.strip()
@@ -584,10 +607,9 @@ class Engine:
             return Int(z3.If(v.e, z3.BitVecVal(1, it[0]), z3.BitVecVal(0, it[0])), it[0], it[1])
         if isinstance(v, Ref) and it:
             # address of a live reference: unconstrained, non-null, suitably aligned
-            a = self.fresh("addr")
-            m.pc.append(a != 0)
-            m.pc.append((a & 15) == 0)
-            return Int(a, 64, False)
+            # address of a live reference: some non-null, suitably aligned value (the compiler-inserted
+            # alignment / null checks that consume it are skipped anyway, see exec_term)
+            return Int(z3.BitVecVal(4096 + 16 * (next(self.fresh_n) % 1000), 64), 64, False)
         if isinstance(v, Adt) and getattr(v, "discr", None) is not None and it and kind == "IntToInt":
             d = self.discr_of(v)
             return Int(d.e, it[0], it[1]) if it[0] == 64 else Int(z3.Extract(it[0] - 1, 0, d.e), it[0], it[1])
@@ -689,6 +711,7 @@ class Engine:
         for (loc, ty), v in zip(fn.params, args):
             fr.locals[loc] = Cell(v, ty, f"{fn.short}:{loc}")
         m.frames.append(fr)
+        m.user["_args"] = [fr.locals[loc] for loc, _ in fn.params[:len(args)]]   # roots, to inspect the final state of a path
         return m
 
     def arg(self, name, ty):
